@@ -1463,3 +1463,13 @@ MUTANTS += [
  dict(id='R10-report-skipped-for-empty-file', props=['C04'], expect='R-REPORT-ALWAYS-SENT/report-always-sent/',
       edits=[(MS, '\t\tif opts.Resume {\n\t\t\tinfo, err := buildResumeInfo(state)\n', '\t\tif opts.Resume && state.totalChunks > 0 {\n\t\t\tinfo, err := buildResumeInfo(state)\n')]),
 ]
+
+# --- F76 ---
+MUTANTS += [
+ dict(id='F76-undo-answered-once', props=['C15'], expect='R-REQUEST-ANSWERED-ONCE/request-answered-once/',
+      edits=[(MS, '\t\tif answered {\n\t\t\treturn nil\n\t\t}\n\t\tinfo, err := buildResumeInfo(state)\n', '\t\t_ = answered\n\t\tinfo, err := buildResumeInfo(state)\n')]),
+ dict(id='F76-flag-never-set', props=['C15'], expect='R-REQUEST-ANSWERED-ONCE/request-answered-once/',
+      edits=[(MS, '\t\tanswered := state.resumeRequestAnswered\n\t\tstate.resumeRequestAnswered = true\n', '\t\tanswered := state.resumeRequestAnswered\n')]),
+ dict(id='F76-benign-flag-tested-in-place', props=['C15', 'C04'], expect='SILENT',
+      edits=[(MS, '\t\tstate.mu.Lock()\n\t\tanswered := state.resumeRequestAnswered\n\t\tstate.resumeRequestAnswered = true\n\t\tstate.mu.Unlock()\n\t\tif answered {\n\t\t\treturn nil\n\t\t}\n', '\t\tstate.mu.Lock()\n\t\tif state.resumeRequestAnswered {\n\t\t\tstate.mu.Unlock()\n\t\t\treturn nil\n\t\t}\n\t\tstate.resumeRequestAnswered = true\n\t\tstate.mu.Unlock()\n')]),
+]
